@@ -375,4 +375,29 @@ theorem thermo_decodes (bg : List Nat) (d : ThermoB) (hbg : bg.length = 168) (hc
     simp [hon, hsw, hpw, g_name, g_mode, g_temp, g_target, g_fan, g_swing, g_remote, g_id, g_key, g_ip, g_mac, expectThermoB] <;>
     simp_all
 
+/-! ### non-vacuity: concrete devices meet every hypothesis, and the conclusions compute -/
+
+def demoCommon : Common :=
+  { id := [0xa1, 0x23, 0xbc], key := 0x18, ip := [192, 168, 1, 33], mac := [0x12, 0xa1, 0xa2, 0x1a, 0xbc, 0x1a], name := cs!"Boiler ב" }
+def demoHeater : Type1 :=
+  { c := demoCommon, typeName := "V4", code := [0x03, 0x17], heater := true, on := true, power := 2600, remaining := 3599, autoShutdown := 7200 }
+def demoRunner : ShutterB := { c := demoCommon, typeName := "RUNNER", code := [0x0c, 0x01], position := 100, direction := 2 }
+def demoBreeze : ThermoB :=
+  { c := demoCommon, typeName := "BREEZE", code := [0x0e, 0x01],
+    t := { on := true, mode := 4, fan := 3, swing := true, tempTenths := 265, target := 23, remote := [69, 76, 69, 67, 55, 48, 50, 50] } }
+
+example : demoCommon.wf := by
+  refine ⟨rfl, by unfold IsBytes; decide, by decide, rfl, by unfold IsBytes; decide, rfl, by unfold IsBytes; decide, by decide +kernel,
+    by decide +kernel, by decide⟩
+example : (demoHeater.typeName, demoHeater.code, demoHeater.heater) ∈ type1Table ∧ demoHeater.power < 65536 ∧
+    demoHeater.remaining < 86400 ∧ demoHeater.autoShutdown < 86400 := by decide
+example : (demoRunner.typeName, demoRunner.code) ∈ shutterTable ∧ demoRunner.position ≤ 100 ∧ demoRunner.direction < 3 := by decide
+example : (demoBreeze.typeName, demoBreeze.code) ∈ thermoTable ∧ (1 ≤ demoBreeze.t.mode ∧ demoBreeze.t.mode ≤ 5) ∧ demoBreeze.t.fan < 4 ∧
+    demoBreeze.t.tempTenths < 65536 ∧ demoBreeze.t.target < 256 ∧ demoBreeze.t.remote.length = 8 ∧ ∀ b ∈ demoBreeze.t.remote, b < 128 := by
+  decide
+/- and on an all-0x5a background the real parser model returns exactly the device described (kernel evaluation of the whole pipeline) -/
+example : parseDatagram (encodeType1 (List.replicate 165 0x5a) demoHeater) = .device (expectType1 demoHeater) := by decide +kernel
+example : parseDatagram (encodeShutterB (List.replicate 159 0x5a) demoRunner) = .device (expectShutterB demoRunner) := by decide +kernel
+example : parseDatagram (encodeThermoB (List.replicate 168 0x5a) demoBreeze) = .device (expectThermoB demoBreeze) := by decide +kernel
+
 end Props.C05
